@@ -4,13 +4,8 @@ Fault enumeration: for every probe operation of a generated case the comparisons
 counted on a clone (N), then the operation is re-run on a fresh clone for EVERY n in 1..N with the
 n-th comparison raising ``Boom``.
 """
-import gc
-
 from vlib import families as F
-from vlib import probes as P
-from vlib import refs
-from vlib import walker
-from vlib.runner import Violation, case_hash
+from vlib import faults
 
 ID = 'C14'
 LEVEL = 'fault_enumeration'
@@ -41,7 +36,6 @@ ASSUMPTIONS = ['O-key families only (comparisons of the other families cannot ra
                'for the Python side']
 
 FAMS = ['OO', 'OI', 'OL', 'OU', 'OQ']
-NEWKEY = 1000            # key number used by the follow-up workload
 
 
 def shards(tier, seed):
@@ -128,541 +122,13 @@ def _cases(shard):
     return case()
 
 
+def run_case(case, ctx):
+    return faults.run_case(case, ctx, faults.CmpFault)
+
+
 def run_shard(shard, ctx):
-    ctx._seen_cases = set()
     ctx.hyp(_cases(shard), run_case, shard['n'], 'boom')
 
 
 def replay(case, ctx):
-    ctx._seen_cases = set()
     run_case(case, ctx)
-
-
-# ----------------------------------------------------------------------------- the world of one case
-
-class World:
-    def __init__(self, cfg):
-        self.fam, self.kind, self.impl = cfg['fam'], cfg['kind'], cfg['impl']
-        self.sizes = cfg.get('sizes')
-        self.is_map, self.is_tree = F.is_map(self.kind), F.is_tree(self.kind)
-        self.oval = self.is_map and self.fam[1] == 'O'
-        self.klass = F.cls(self.fam, self.kind, self.impl)
-        self.keys = {}          # n -> canonical key
-        self.vals = {}          # token -> canonical value
-        self.registry = []      # every probe object ever made (one reference each)
-        self.nfresh = 0
-
-    def K(self, n, fresh=False):
-        if fresh:
-            k = P.TrackedKey(n)
-            self.registry.append(k)
-            self.nfresh += 1
-            return k
-        k = self.keys.get(n)
-        if k is None:
-            k = P.TrackedKey(n)
-            self.keys[n] = k
-            self.registry.append(k)
-        return k
-
-    def V(self, tok):
-        if not self.is_map:
-            return None
-        if not self.oval:
-            return tok
-        v = self.vals.get(tok)
-        if v is None:
-            v = P.Tracked(('v', tok))
-            self.vals[tok] = v
-            self.registry.append(v)
-        return v
-
-    def extra(self):
-        import collections
-        ex = collections.Counter()
-        for k in self.keys.values():
-            ex[id(k)] += 1
-        for v in self.vals.values():
-            ex[id(v)] += 1
-        return ex
-
-    def vtok(self, v):
-        return v.tag[1] if self.oval else v
-
-    def contents(self, t, is_map=None):
-        is_map = self.is_map if is_map is None else is_map
-        if is_map:
-            return [(k.n, self.vtok(v)) for k, v in t.items()]
-        return [(k.n, None) for k in t.keys()]
-
-    def build(self, ops):
-        t = self.klass()
-        for op in ops:
-            if op[0] == 'set':
-                t[self.K(op[1])] = self.V(op[2])
-            elif op[0] == 'add':
-                t.add(self.K(op[1]))
-            else:
-                k = self.K(op[1])
-                if self.is_map:
-                    t.pop(k, None)
-                elif k in t:
-                    t.remove(k)
-        return t
-
-    def other(self, form, keys, valtok=1, pairs=None):
-        """an operand: (object, descriptor for audits or None)"""
-        if pairs is None:
-            pairs = [(a, valtok) for a in keys]
-        if form == 'list':
-            return [self.K(a) for a, b in pairs], None
-        if form == 'pairs':
-            return [(self.K(a), self.V(b)) for a, b in pairs], None
-        if form == 'dict':
-            return dict((self.K(a), self.V(b)) for a, b in pairs), None
-        o = F.cls(self.fam, form, self.impl)()
-        for a, b in pairs:
-            if F.is_map(form):
-                o[self.K(a)] = self.V(b)
-            else:
-                o.add(self.K(a))
-        return o, (o, F.is_map(form), F.is_tree(form))
-
-
-MUTATING = {'set', 'insert', 'setdefault', 'add', 'del', 'remove', 'discard', 'pop', 'popd', 'popitem', 'popmin',
-            'update', 'ior', 'iand', 'isub', 'ixor', 'ctor'}
-BULK = {'update', 'ior', 'iand', 'isub', 'ixor', 'ctor'}
-
-
-class Plan:
-    """What one probe does: the call, the expected final model, the operands it reads."""
-    __slots__ = ('call', 'after', 'operands', 'elements', 'target_is_new', 'holder')
-
-
-def _plan(w, t, op, model):
-    """Prepare the probe (operands are built here, before the hook is armed).  model: dict n -> vtok."""
-    name = op[0]
-    p = Plan()
-    p.operands = []          # [(obj, is_map, is_tree, contents-before)]
-    p.after = None           # dict for atomic mutating probes
-    p.elements = None        # for bulk probes: list of (n, vtok) in processing order, and the mode
-    p.target_is_new = False
-    p.holder = []            # results kept until the audit is over are NOT wanted: stays empty
-
-    def operand(desc):
-        if desc is not None:
-            p.operands.append(desc + (w.contents(desc[0], desc[1]),))
-
-    if name in ('set', 'insert', 'setdefault', 'add'):
-        n = op[1]
-        k = w.K(n, op[-1])
-        v = w.V(op[2]) if w.is_map else None
-        after = dict(model)
-        if name in ('set', 'add') or n not in model:
-            after[n] = op[2] if w.is_map else None
-        p.after = after
-        if name == 'set':
-            def call():
-                t[k] = v
-        elif name == 'insert':
-            def call():
-                return t.insert(k, v) if w.is_map else t.insert(k)
-        elif name == 'setdefault':
-            def call():
-                return t.setdefault(k, v)
-        else:
-            def call():
-                return t.add(k)
-    elif name in ('del', 'remove', 'discard', 'pop', 'popd'):
-        n = op[1]
-        k = w.K(n, op[-1])
-        after = dict(model)
-        after.pop(n, None)
-        p.after = after
-        if name == 'del':
-            def call():
-                del t[k]
-        elif name == 'remove':
-            def call():
-                t.remove(k)
-        elif name == 'discard':
-            def call():
-                t.discard(k)
-        elif name == 'pop':
-            def call():
-                t.pop(k)
-        else:
-            def call():
-                t.pop(k, None)
-    elif name in ('popitem', 'popmin'):
-        after = dict(model)
-        if model:
-            after.pop(min(model))
-        p.after = after
-
-        def call():
-            if name == 'popitem':
-                t.popitem()
-            else:
-                t.pop()
-    elif name in ('get', 'getitem', 'in', 'has_key'):
-        k = w.K(op[1], op[-1])
-        if name == 'get':
-            def call():
-                t.get(k)
-        elif name == 'getitem':
-            def call():
-                t[k]
-        elif name == 'in':
-            def call():
-                k in t
-        else:
-            def call():
-                t.has_key(k)
-    elif name == 'range':
-        meth, a, b, xa, xb, how = op[1:7]
-        ka = w.K(a) if a is not None else None
-        kb = w.K(b) if b is not None else None
-
-        def call():
-            r = getattr(t, meth)(ka, kb, xa, xb)
-            if how == 'list' or meth.startswith('iter'):
-                list(r)
-            elif how == 'len':
-                len(r)
-            else:
-                if len(r):
-                    r[0], r[-1]
-    elif name in ('minKey', 'maxKey'):
-        kb = w.K(op[1]) if op[1] is not None else None
-
-        def call():
-            if kb is None:
-                getattr(t, name)()
-            else:
-                getattr(t, name)(kb)
-    elif name == 'algebra':
-        fn, keys, form, swap = op[1:5]
-        other, desc = w.other(form, keys)
-        operand(desc)
-        if fn in ('or', 'and', 'sub', 'xor'):
-            import operator
-            f = {'or': operator.or_, 'and': operator.and_, 'sub': operator.sub, 'xor': operator.xor}[fn]
-            if desc is None:
-                swap = False          # plain list on the left has no such operator
-        else:
-            f = F.fn(w.fam, fn, w.impl)
-            if fn == 'difference' and desc is None:
-                swap = False          # difference's first operand must be a BTrees object
-        if swap:
-            def call():
-                f(other, t)
-        else:
-            def call():
-                f(t, other)
-    elif name == 'weighted':
-        fn, keys, form, w1, w2, swap = op[1:7]
-        other, desc = w.other(form, keys, valtok=2)
-        operand(desc)
-        f = F.fn(w.fam, fn, w.impl)
-        if swap:
-            def call():
-                f(other, t, w1, w2)
-        else:
-            def call():
-                f(t, other, w1, w2)
-    elif name == 'isdisjoint':
-        other, desc = w.other(op[2], op[1])
-        operand(desc)
-
-        def call():
-            t.isdisjoint(other)
-    elif name == 'update':
-        if w.is_map:
-            other, desc = w.other(op[2], None, pairs=[tuple(x) for x in op[1]])
-            els = [tuple(x) for x in op[1]]
-        else:
-            other, desc = w.other(op[2], op[1])
-            els = [(a, None) for a in op[1]]
-        operand(desc)
-        p.elements = ('add', els)
-
-        def call():
-            t.update(other)
-    elif name in ('ior', 'iand', 'isub', 'ixor'):
-        other, desc = w.other(op[2], op[1])
-        operand(desc)
-        p.elements = ({'ior': 'add', 'iand': 'keep', 'isub': 'remove', 'ixor': 'toggle'}[name],
-                      [(a, None) for a in op[1]])
-        import operator
-        f = {'ior': operator.ior, 'iand': operator.iand, 'isub': operator.isub, 'ixor': operator.ixor}[name]
-
-        def call():
-            f(t, other)
-    elif name == 'ctor':
-        if w.is_map:
-            other, desc = w.other(op[2], None, pairs=[tuple(x) for x in op[1]])
-            els = [tuple(x) for x in op[1]]
-        else:
-            other, desc = w.other(op[2], op[1])
-            els = [(a, None) for a in op[1]]
-        operand(desc)
-        p.target_is_new = True
-
-        def call():
-            w.klass(other)
-    elif name == 'merge':
-        leafk = F.cls(w.fam, F.leaf_kind(w.kind), w.impl)
-
-        def state(ns, bump):
-            ns = sorted(set(ns))
-            if w.is_map:
-                data = []
-                for a in ns:
-                    data.append(w.K(a))
-                    data.append(w.V((a + bump) % 3 if bump and a % 2 else a % 3))
-                return (tuple(data),)
-            return (tuple(w.K(a) for a in ns),)
-        so, sc, sn = state(op[1], 0), state(op[2], 0), state(op[3], op[5])
-        if op[4] == 'tree' and w.is_tree:
-            so, sc, sn = ((so,),), ((sc,),), ((sn,),)
-            target = w.klass
-        else:
-            target = leafk
-        from BTrees.Interfaces import BTreesConflictError
-
-        def call():
-            try:
-                target()._p_resolveConflict(so, sc, sn)
-            except BTreesConflictError:
-                pass
-    else:
-        raise ValueError(op)
-    p.call = call
-    return p
-
-
-def _run_probe(w, build, op, n, ctx, desc):
-    """Build a clone, run the probe with the n-th comparison failing (n = 0: count only).
-    Returns (comparisons counted, outcome class)."""
-    name = op[0]
-    sig = {'impl': w.impl, 'kind': w.kind, 'op': name, 'valcode': w.fam[1]}
-    t = w.build(build)
-    model = dict(w.contents(t))
-    plan = _plan(w, t, op, model)
-    outcome = None
-    err = None
-    if n:
-        def act():
-            raise P.Boom()
-        P.Hook.reset(at=n, action=act)
-    else:
-        P.Hook.reset()
-    P.arm(True)
-    try:
-        plan.call()
-        outcome = 'returned'
-    except P.Boom:
-        outcome = 'boom'
-    except (KeyError, ValueError, TypeError) as e:
-        outcome = 'exc:' + type(e).__name__
-        err = repr(e)
-    finally:
-        P.arm(False)
-    count = P.Hook.count
-    fired = P.Hook.fired
-    del plan.call
-    if n == 0:
-        if outcome.startswith('exc:') and outcome not in ('exc:KeyError', 'exc:ValueError'):
-            raise Violation('%s: fault-free run raised %s' % (desc, err), dict(sig, what='faultfree-exception'))
-    elif not fired:
-        outcome = 'not_fired'
-    elif outcome != 'boom':
-        ctx.mismatch('%s: the %d-th comparison raised, but the call %s instead of passing the exception on'
-                     % (desc, n, 'returned normally' if outcome == 'returned' else 'raised ' + str(err)),
-                     dict(sig, what='swallowed', got=outcome))
-    # ---- soundness of the target and of every operand
-    conts = [(t, w.is_map, w.is_tree)]
-    for o, om, ot, before in plan.operands:
-        conts.append((o, om, ot))
-        now = w.contents(o, om)
-        if now != before:
-            ctx.mismatch('%s: an operand that is only read changed: %r -> %r' % (desc, before, now),
-                         dict(sig, what='operand-changed'))
-    for o, om, ot in conts:
-        if ot:
-            try:
-                o._check()
-                wk = walker.walk(o, om)
-                del wk
-            except (AssertionError, walker.WalkError) as e:
-                ctx.mismatch('%s: container not sound afterwards: %s' % (desc, e), dict(sig, what='unsound'),
-                             recoverable=False)
-    # ---- contents: previous, or the completed change
-    now = dict(w.contents(t))
-    if list(now) != sorted(now) or len(now) != len(t):
-        ctx.mismatch('%s: keys out of order or len() wrong: %r len %d' % (desc, list(now), len(t)),
-                     dict(sig, what='order'), recoverable=False)
-    state = _judge(w, name, plan, model, now, outcome)
-    if state is None:
-        ctx.mismatch('%s (fault at comparison %d of the call): partial change: contents before %r, now %r, '
-                     'completed change would be %r' % (desc, n, sorted(model.items()), sorted(now.items()),
-                                                       sorted(plan.after.items()) if plan.after is not None else plan.elements),
-                     dict(sig, what='partial'), recoverable=False)
-    # ---- reference counts (C): every probe object is held exactly by the slots that show it
-    if w.impl == 'c':
-        bad = refs.audit(w.registry, conts, w.extra(), lazy_gc=True)
-        if bad:
-            ctx.mismatch('%s (fault at comparison %d): reference counts disagree with the structures: %s '
-                         '(object, references beyond the harness, slots found)' % (desc, n, bad[:4]),
-                         dict(sig, what='refcount', leak=bad[0][1] > bad[0][2]), recoverable=False)
-    # ---- later operations behave normally
-    if not plan.target_is_new:
-        _followup(w, t, now, ctx, desc, sig)
-    o = before = wk = None
-    del conts, plan
-    del t
-    if w.impl == 'c':
-        bad = refs.audit(w.registry, [], w.extra(), lazy_gc=True)
-        if bad:
-            ctx.mismatch('%s (fault at comparison %d): after destroying every container references remain: %s'
-                         % (desc, n, bad[:4]), dict(sig, what='refcount-end', leak=True), recoverable=False)
-    return count, outcome, state
-
-
-def _judge(w, name, plan, before, now, outcome):
-    """'before' | 'after' | 'between' (bulk) | None (partial change)"""
-    if plan.target_is_new:
-        return 'before'
-    if plan.elements is None:
-        if now == before:
-            if outcome == 'returned' and plan.after is not None and plan.after != before:
-                return None
-            return 'before'
-        if plan.after is not None and now == plan.after:
-            return 'after'
-        return None
-    mode, els = plan.elements
-    # bulk: per element atomic, contents between before and the completed change
-    ns = [a for a, b in els]
-    if mode == 'add':
-        final = dict(before)
-        for a, b in els:
-            final[a] = b
-        if outcome == 'returned':
-            return 'after' if now == final else None
-        ok = all(k in now for k in before) and all(k in final for k in now)
-        for k, v in now.items():
-            if k in before and v == before[k]:
-                continue
-            if v not in [b for a, b in els if a == k]:
-                ok = False
-        if not ok:
-            return None
-        return 'after' if now == final else ('before' if now == before else 'between')
-    if mode == 'remove':
-        final = dict((k, v) for k, v in before.items() if k not in ns)
-    elif mode == 'keep':
-        final = dict((k, v) for k, v in before.items() if k in ns)
-    else:
-        final = dict(before)
-        for a in set(ns):
-            if a in final:
-                del final[a]
-            else:
-                final[a] = None
-    if outcome == 'returned':
-        return 'after' if now == final else None
-    lo = set(before) & set(final)
-    hi = set(before) | set(final)
-    if not (lo <= set(now) <= hi):
-        return None
-    return 'after' if now == final else ('before' if now == before else 'between')
-
-
-def _followup(w, t, now, ctx, desc, sig):
-    m = dict(now)
-
-    def same(stage):
-        got = dict(w.contents(t))
-        if got != m or list(got) != sorted(got):
-            raise Violation('%s: follow-up workload (%s): contents %r, model %r'
-                            % (desc, stage, sorted(got.items()), sorted(m.items())), dict(sig, what='followup'))
-    try:
-        for n, v in sorted(m.items()):
-            k = w.K(n)
-            if k not in t:
-                raise Violation('%s: follow-up: stored key %d not found' % (desc, n), dict(sig, what='followup'))
-            if w.is_map and w.vtok(t[k]) != v:
-                raise Violation('%s: follow-up: wrong value under key %d' % (desc, n), dict(sig, what='followup'))
-        for n in (NEWKEY, -1, 12):
-            k = w.K(n)
-            if w.is_map:
-                t[k] = w.V(3)
-                m[n] = 3
-            else:
-                t.add(k)
-                m[n] = None
-            same('insert %d' % n)
-        for n in (sorted(m)[0], sorted(m)[len(m) // 2], NEWKEY):
-            if n in m:
-                k = w.K(n)
-                if w.is_map:
-                    del t[k]
-                else:
-                    t.remove(k)
-                del m[n]
-                same('delete %d' % n)
-        if w.is_tree:
-            t._check()
-            walker.walk(t, w.is_map)
-    except Violation:
-        raise
-    except (AssertionError, walker.WalkError, KeyError, TypeError, ValueError, RuntimeError, SystemError) as e:
-        raise Violation('%s: follow-up workload failed: %r' % (desc, e), dict(sig, what='followup'))
-
-
-# ----------------------------------------------------------------------------- one case
-
-def run_case(case, ctx):
-    cfg = case['cfg']
-    w = World(cfg)
-    P.Hook.reset()
-    P.arm(False)
-    classes = ['kind:' + w.kind, 'fam:' + w.fam, 'impl:' + w.impl]
-    h = case_hash(case)
-    seen = getattr(ctx, '_seen_cases', set())
-    first_time = h not in seen
-    seen.add(h)
-    ninj = nnt = 0
-    cls = {}
-    with F.NodeSizes(w.klass, tuple(w.sizes) if w.sizes else None):
-        t0 = w.build(case['build'])
-        size = len(t0)
-        height = 0
-        if w.is_tree:
-            wk = walker.walk(t0, w.is_map)
-            height = wk.height
-            classes.append('height:%d' % height)
-            del wk
-        del t0
-        for pi, op in enumerate(case['probes']):
-            desc = 'probe %d %r on %s%s(%s, sizes %s) built by %r' % (pi, op, w.fam, w.kind, w.impl, w.sizes,
-                                                                      case['build'])
-            total, outcome, _ = _run_probe(w, case['build'], op, 0, ctx, desc)
-            ninj += 1
-            cls['count:%s:N=%s' % (op[0], 'zero' if total == 0 else ('1-3' if total <= 3 else ('4-9' if total <= 9 else '10+')))] = \
-                cls.get('count:%s:N=%s' % (op[0], 'zero' if total == 0 else ('1-3' if total <= 3 else ('4-9' if total <= 9 else '10+'))), 0) + 1
-            for n in range(1, total + 1):
-                cnt, outcome, state = _run_probe(w, case['build'], op, n, ctx, desc)
-                ninj += 1
-                where = 'first' if n == 1 else ('last' if n == total else 'middle')
-                key = 'inj:%s:%s:%s' % (op[0], where, state if outcome == 'boom' else outcome)
-                cls[key] = cls.get(key, 0) + 1
-                if (op[0] in MUTATING or n >= 2) and size >= 2:
-                    nnt += 1
-    if first_time:
-        ctx.ok_bulk(ninj, nnt, cls, sample=case if nnt else None)
-    else:
-        ctx.count('duplicate_case')
-    return False, classes
